@@ -5,6 +5,7 @@ CONSTANTS
   FlagIgnored = FALSE
   CacheSetDefault = TRUE
   CacheNotUpdated = FALSE
+  EmbModeSticks = FALSE
   MaxKeys = 1
   MaxSteps = 6
   Emit = FALSE
